@@ -187,6 +187,18 @@ class FuncEffects(object):
             return {'global:' + name}
         bs = self.bindings.get(name)
         if not bs:
+            # free variable of a nested function: a local of the enclosing
+            # function is not process-wide state
+            p = getattr(self.func, '_parent', None)
+            while p is not None:
+                if isinstance(p, ast.FunctionDef):
+                    for x in ast.walk(p):
+                        if isinstance(x, ast.Name) and x.id == name \
+                                and isinstance(x.ctx, ast.Store):
+                            return {'enclosing:' + name}
+                    if name in [a.arg for a in p.args.args]:
+                        return {'enclosing:' + name}
+                p = getattr(p, '_parent', None)
             return {'global:' + name}
         if (name, line) in seen:
             return set()
@@ -228,7 +240,7 @@ class FuncEffects(object):
                 r = self._name_roots(n.target.id, n.lineno, set())
                 if n.target.id in self.globals_decl:
                     out.append((n, 'global-augassign', n.target.id, r))
-                elif _immutable_rhs(n.value):
+                elif _immutable_rhs(n.value) or not _container_rhs(n.value):
                     pass    # str/number accumulation rebinds the name
                 elif isinstance(n.op, (ast.Add, ast.BitOr, ast.BitAnd,
                                        ast.Sub, ast.Mult)):
@@ -260,6 +272,20 @@ class FuncEffects(object):
                 continue
             res.append((node, how, text, vis))
         return res
+
+
+def _container_rhs(v):
+    """RHS evidently a list/set/dict: `x += <that>` mutates x in place when
+    x is a list/set/dict."""
+    if isinstance(v, (ast.List, ast.Set, ast.Dict, ast.ListComp, ast.SetComp,
+                      ast.DictComp, ast.Tuple)):
+        return True
+    if isinstance(v, ast.Call) and dotted(v.func) in ('list', 'set', 'dict',
+                                                      'sorted', 'tuple'):
+        return True
+    if isinstance(v, ast.BinOp) and isinstance(v.op, ast.Mult):
+        return _container_rhs(v.left) or _container_rhs(v.right)
+    return False
 
 
 def _immutable_rhs(v):
